@@ -48,3 +48,15 @@ package source
 //@   assert[C20] after "c.Annotations[urlsKey] = appendWithValidation" : len(c.Annotations[urlsKey]) == 0 || len(urlsKey) + len(c.Annotations[urlsKey]) <= 4096
 //@   assert[C20] after "c.Annotations[targetImageLayersLabel] = strings.TrimSuffix" : len(c.Annotations[targetImageLayersLabel]) == 0 || len(targetImageLayersLabel) + len(c.Annotations[targetImageLayersLabel]) <= 4096
 //@   assert[C20] after "c.Annotations[targetURLsLabel] = appendWithValidation" : len(c.Annotations[targetURLsLabel]) == 0 || len(targetURLsLabel) + len(c.Annotations[targetURLsLabel]) <= 4096
+
+// containerd-labels flavour of the writer: every URL label it adds -- the layer's own and the per-position ones of its
+// neighbours -- is validated under the key it is stored under (a value cut to fit a shorter key can exceed the limit
+// under a longer key), and the prefetch-size label is the decimal rendering of the configured size
+//@ func AppendExtraLabelsHandler$1$1
+//@   props C20
+//@   taggedonly
+//@   requires f != nil && wrapper != nil
+//@   assert[C20] after "c.Annotations[targetURLsLabel] = " : len(c.Annotations[targetURLsLabel]) == 0 || len(targetURLsLabel) + len(c.Annotations[targetURLsLabel]) <= 4096
+//@   assert[C20] after "c.Annotations[urlsKey] = " : len(c.Annotations[urlsKey]) == 0 || len(urlsKey) + len(c.Annotations[urlsKey]) <= 4096
+//@   assert[C20] after "urlsKey := targetImageURLsLabelPrefix" : urlsKey == targetImageURLsLabelPrefix + sprintf("%d", rangeidx)
+//@   assert[C20] after "c.Annotations[config.TargetPrefetchSizeLabel] = " : c.Annotations[config.TargetPrefetchSizeLabel] == sprintf("%d", prefetchSize)
